@@ -320,7 +320,20 @@ theorem classify_unknown_short {tbl : List OptSpec} {c : Char} (hc1 : c ≠ '-')
 
 /-- no positional that must be given, and a modelled combination of positionals -/
 def finishable (tbl : List OptSpec) : Bool :=
-  posOk tbl && (posSpecs tbl).all (fun o => posN o == .star || posN o == .opt)
+  posOk tbl && (posSpecs tbl).all (fun o => posN o == .star || posN o == .opt) &&
+    tbl.all (fun o => !(o.isOpt && o.required))
+
+theorem missingReq_false {tbl : List OptSpec} (h : finishable tbl = true) (u : List Name) :
+    missingReq tbl u = false := by
+  unfold finishable at h
+  simp only [Bool.and_eq_true, List.all_eq_true] at h
+  unfold missingReq
+  apply Bool.eq_false_iff.mpr
+  intro hc
+  obtain ⟨o, ho, hoo⟩ := List.any_eq_true.mp hc
+  have := h.2 o ho
+  simp only [Bool.and_eq_true] at hoo
+  simp [hoo.1.1, hoo.1.2] at this
 
 theorem has_assignRest {ns : Ns} {k : Name} (h : Has ns k) (os : List OptSpec) : Has (assignRest os ns) k := by
   induction os generalizing ns with
@@ -340,10 +353,14 @@ theorem get_assignRest {ns : Ns} {k : Name} (os : List OptSpec) (h : ∀ o ∈ o
 theorem finish_idle {tbl : List OptSpec} (hf : finishable tbl = true) {ps : PS} (hr : ps.run = .idle) :
     ∃ ps', finish tbl ps = .ok ps' ∧ ps'.extras = ps.extras ∧ (∀ k, Has ps.ns k → Has ps'.ns k) ∧
       ∀ k, (∀ o ∈ posSpecs tbl, destOf o ≠ k) → ps'.ns.get k = ps.ns.get k := by
+  have hmr := missingReq_false hf ps.used
   unfold finishable at hf
   simp only [Bool.and_eq_true, List.all_eq_true, Bool.or_eq_true, beq_iff_eq] at hf
-  obtain ⟨_, hall⟩ := hf
+  obtain ⟨⟨_, hall⟩, _⟩ := hf
   unfold finish
+  rw [hmr]
+  simp only [Bool.false_eq_true, if_false]
+  unfold finishPos
   rw [hr]
   simp only []
   cases hp : posSpecs tbl with
@@ -368,6 +385,9 @@ theorem finish_extras_true {tbl : List OptSpec} {ps ps' : PS} (he : ps.extras = 
   unfold finish at h
   split at h
   · cases h
+  unfold finishPos at h
+  split at h
+  · cases h
     unfold closeRun
     split <;> simp [he]
   · cases h; exact he
@@ -381,7 +401,7 @@ theorem finish_extras_true {tbl : List OptSpec} {ps ps' : PS} (he : ps.extras = 
 theorem posOk_of_finishable {tbl : List OptSpec} (h : finishable tbl = true) : posOk tbl = true := by
   unfold finishable at h
   simp only [Bool.and_eq_true] at h
-  exact h.1
+  exact h.1.1
 
 theorem runParser_eq {q : Parser} (hp : posOk q.opts = true) (args : List Name) :
     runParser q args =
@@ -442,6 +462,9 @@ theorem runParser_ambiguous {q : Parser} (hp : posOk q.opts = true) {t : Name} (
 
 theorem finish_err {tbl : List OptSpec} {ps : PS} {e : Fail} (h : finish tbl ps = .error e) : e = .exit 2 := by
   unfold finish at h
+  split at h
+  · cases h; rfl
+  unfold finishPos at h
   split at h
   · cases h
   · cases h
